@@ -33,15 +33,19 @@ SwapAdj(s, j) == [i \in 1 .. Len(s) |-> IF i = j THEN s[j + 1] ELSE IF i = j + 1
 Drop(s, j) == [i \in 1 .. (Len(s) - 1) |-> IF i < j THEN s[i] ELSE s[i + 1]]
 Targets == {"Unrestricted", "MacRoman"}
 
-P(fam, enc, first, codes, slots, list, G, pad, padpos, target) ==
-  [fam |-> fam, enc |-> enc, first |-> first, codes |-> codes, slots |-> slots, list |-> list,
+\* os2: the source font has an OS/2 table (usFirstCharIndex = first); FALSE only for Symbol sources
+\* without one, where first = 32 is what Font and the subsetter fall back to.  Slot 0 is glyph 0.
+PO(fam, enc, first, os2, codes, slots, list, G, pad, padpos, target) ==
+  [fam |-> fam, enc |-> enc, first |-> first, os2 |-> os2, codes |-> codes, slots |-> slots, list |-> list,
    G |-> G, pad |-> pad, padpos |-> padpos, target |-> target]
+P(fam, enc, first, codes, slots, list, G, pad, padpos, target) ==
+  PO(fam, enc, first, TRUE, codes, slots, list, G, pad, padpos, target)
 
 ---------------------------------------------------------------------------
 \* Unicode sources.  0xC4 is Mac Roman but not ASCII; 0x100 BMP; 0xFFFE/0xFFFF touch the final
 \* format 4 segment; 0x10000.. astral.
 UU == {65, 66, 67, 68, 72, 73, 78, 196, 256, 257, 65534, 65535, 65536, 65537}
-XU == UU \cup {0, 64, 69, 71, 74, 77, 79, 126, 195, 197, 255, 258, 65531, 65533, 65538, 1114111}
+XU == UU \cup {0, 64, 69, 71, 74, 77, 79, 126, 195, 197, 255, 258, 65531, 65532, 65533, 65538, 65539, 65540, 1114111}
 
 \* every mapping of up to K codes onto K glyphs x every duplicate-free id list over them
 KSmall == IF Deep THEN 3 ELSE 2
@@ -69,14 +73,41 @@ InitSegs ==
 \* the 255/256 threshold of format 0 and the u16 range
 PadCodes == {65, 66, 196, 256, 65536}
 Pads == IF Deep THEN {0, 252, 253, 254, 255, 300} ELSE {0, 253, 254, 300}
+\* slot vectors: one glyph per code; all codes on one glyph; the first two codes on one glyph
+\* (several characters per glyph on both sides of every threshold)
+PadSlots(k) == {Iota(k), [i \in 1 .. k |-> 1]} \cup (IF k >= 3 THEN {[i \in 1 .. k |-> IF i = 1 THEN 1 ELSE i - 1]} ELSE {})
+MaxOf(sq) == Max(ToSet(sq))
 InitPad ==
   \E S \in SubsetsUpTo(PadCodes, 3) \ {{}} : \E pd \in Pads : \E pp \in {"before", "after"} : \E t \in Targets :
     LET k == Cardinality(S) IN
-    \E l \in {Iota(k), Rev(Iota(k))} : par = P("pad", "Unicode", 32, Asc(S), Iota(k), l, k, pd, pp, t)
+    \E sl \in PadSlots(k) : LET g == MaxOf(sl) IN
+    \E l \in {Iota(g), Rev(Iota(g))} : par = P("pad", "Unicode", 32, Asc(S), sl, l, g, pd, pp, t)
 InitHuge ==
   /\ Deep
   /\ \E S \in {{65}, {65, 66}, {196, 256}, {65, 65535}, {65, 65536}, {65536, 65537}} : \E t \in Targets :
-       LET k == Cardinality(S) IN par = P("huge", "Unicode", 32, Asc(S), Iota(k), Rev(Iota(k)), k, 65530, "before", t)
+       LET k == Cardinality(S) IN
+       \/ par = P("huge", "Unicode", 32, Asc(S), Iota(k), Rev(Iota(k)), k, 65530, "before", t)
+       \/ k = 2 /\ par = P("huge", "Unicode", 32, Asc(S), <<1, 1>>, <<1>>, 1, 65530, "before", t)    \* two characters, one glyph
+
+\* characters mapped to glyph 0 explicitly (a covered code whose glyph is 0: a format 4 segment whose
+\* idDelta leads to 0 / a glyphIdArray entry 0 / a format 12 group starting at glyph 0): one code of S
+\* goes to glyph 0, the others to glyphs 1 .. k-1
+KZero == IF Deep THEN 4 ELSE 3
+InitZero ==
+  \E S \in SubsetsUpTo(UU, KZero) \ {{}} : \E z \in S : \E t \in Targets :
+    LET cs == Asc(S)  k == Cardinality(S)
+        zi == CHOOSE i \in 1 .. k : cs[i] = z
+        sl == [i \in 1 .. k |-> IF i = zi THEN 0 ELSE IF i < zi THEN i ELSE i - 1]
+    IN \E l \in {Iota(k - 1), Rev(Iota(k - 1))} : par = P("zero", "Unicode", 32, cs, sl, l, k - 1, 0, "before", t)
+
+\* the BMP / astral border: one run of consecutive codes lo .. hi around 0xFFFF / 0x10000 on consecutive
+\* glyphs (a format 12 source group spanning the border; for hi = 0xFFFF a format 4 source whose LAST
+\* segment is a real one, startCode < 0xFFFF, endCode = 0xFFFF) or on descending glyphs (one group each)
+InitBorder ==
+  \E lo \in 65532 .. 65535 : \E hi \in {65535, 65536, 65537, 65539} : \E t \in Targets :
+    /\ lo < hi
+    /\ LET k == hi - lo + 1  cs == [i \in 1 .. k |-> lo + i - 1] IN
+       \E sl \in {Iota(k), Rev(Iota(k))} : \E l \in Lists(k) : par = P("border", "Unicode", 32, cs, sl, l, k, 0, "before", t)
 
 ---------------------------------------------------------------------------
 \* Mac Roman source (format 0, record 1/0): codes; 0x80 is A dieresis.  The source glyph ids stay
@@ -90,21 +121,35 @@ InitMac ==
       par = P("mac", "AppleRoman", 32, Asc(S), Iota(k), l, k, pd, "front", t)   \* format 0 holds glyphs <= 255
 
 ---------------------------------------------------------------------------
-\* Windows Symbol source (format 4, record 3/0): codes in the PUA block F000..F0FF, below 0x100
-\* and outside both; usFirstCharIndex 0xF020 (the usual), 0x20, or 0xF100 (above the codes: inconsistent OS/2)
-SU == {61505, 61506, 61507, 61508, 61512, 61513, 61518, 61636, 65, 66, 61696}
-XS == {SYM + s : s \in SU \cup {61504, 61509, 64, 67, 61695, 61697, 65535}}
-      \cup {65, 66, 67, 68, 72, 73, 78, 196, 64, 197, 61505, 61506, 61636, 256}
+\* Windows Symbol source (format 4, record 3/0).  Codes in the byte range 0x20..0xFF, in the PUA block
+\* 0xF020..0xF0FF and outside both; OS/2.usFirstCharIndex over the whole parameter space: no OS/2 table
+\* (Font and the subsetter fall back to 0x20), 0, 0x10, 0x1F (below 0x20), 0x20, 0x21, 0xF000, 0xF020 (the
+\* usual value), 0xF0FF, 0xF100 (above every code: inconsistent OS/2).  Every target.
+SymFirsts == {0, 16, 31, 32, 33, 61440, 61472, 61695, 61696}
+SULow  == {33, 49, 64, 65, 66, 81, 167, 196}                  \* 0x21 0x31 0x40 0x41 0x42 0x51 0xA7 0xC4 (not 0xA4: U+00A4 is an optional Mac Roman character)
+SUHigh == {61472, 61473, 61505, 61506, 61636, 61695}          \* 0xF020 0xF021 0xF041 0xF042 0xF0C4 0xF0FF
+SU == SULow \cup SUHigh \cup {31, 61696}
+SUNear == SU \cup {32, 67, 255, 256, 61440, 61504, 61507, 61697, 65535}
+\* probes of a Symbol case: the codes themselves (symbol characters), and as Unicode characters: what
+\* reaches the codes by Font's rule for this usFirstCharIndex, the PUA image of those, the raw codes (a
+\* conversion that forgets the offset keys the output by them), and fixed characters
+XSOf(f) ==
+  LET reach == {c + 32 - f : c \in SUNear} \cap (0 .. 1114111)
+  IN {SYM + s : s \in SUNear}
+     \cup {x \in reach : IsScalar(x)} \cup {61440 + x : x \in reach \cap (0 .. 255)}
+     \cup SULow \cup {61505, 61506, 61636}
+     \cup {0, 32, 65, 66, 67, 68, 72, 73, 78, 97, 196, 197, 256, 8364}
+SymOS2(f) == IF f = 32 THEN {TRUE, FALSE} ELSE {TRUE}
 InitSym ==
-  \E S \in SubsetsUpTo(SU, IF Deep THEN 3 ELSE 2) : \E f \in {61472, 32, 61696} : \E t \in Targets :
+  \E S \in SubsetsUpTo(SU, IF Deep THEN 3 ELSE 2) : \E f \in SymFirsts : \E o \in SymOS2(f) : \E t \in Targets :
     LET k == Cardinality(S) IN
     \E l \in {Iota(k), Rev(Iota(k))} \cup (IF k > 0 THEN {Drop(Iota(k), 1)} ELSE {}) :
-      par = P("sym", "Symbol", f, Asc(S), Iota(k), l, k, 0, "before", t)
+      par = PO("sym", "Symbol", f, o, Asc(S), Iota(k), l, k, 0, "before", t)
 
 ---------------------------------------------------------------------------
 \* concretisation: slot j is glyph pad + j ("before") or j ("after", "front"); the pad glyphs are
 \* listed before the slot glyphs ("before", "front") or after them ("after")
-GidOf(p, slot) == IF p.padpos = "before" THEN p.pad + slot ELSE slot
+GidOf(p, slot) == IF slot = 0 THEN 0 ELSE IF p.padpos = "before" THEN p.pad + slot ELSE slot
 CaseOf(p) ==
   [enc |-> p.enc, first |-> p.first, target |-> p.target,
    sm  |-> [i \in 1 .. Len(p.codes) |-> <<p.codes[i], GidOf(p, p.slots[i])>>],
@@ -112,8 +157,8 @@ CaseOf(p) ==
              [] p.padpos = "after"  -> <<0>> \o p.list \o [i \in 1 .. p.pad |-> p.G + i]
              [] p.padpos = "front"  -> <<0>> \o [i \in 1 .. p.pad |-> p.G + i] \o p.list]
 NumGlyphs(p) == 1 + p.G + p.pad
-ProbesOf(p) == CASE p.enc = "Unicode" -> XU [] p.enc = "AppleRoman" -> XM [] p.enc = "Symbol" -> XS
-ProbeSetName(p) == CASE p.enc = "Unicode" -> "XU" [] p.enc = "AppleRoman" -> "XM" [] p.enc = "Symbol" -> "XS"
+ProbesOf(p) == CASE p.enc = "Unicode" -> XU [] p.enc = "AppleRoman" -> XM [] p.enc = "Symbol" -> XSOf(p.first)
+ProbeSetName(p) == CASE p.enc = "Unicode" -> "XU" [] p.enc = "AppleRoman" -> "XM" [] p.enc = "Symbol" -> "XS" \o ToString(p.first)
 
 \* printed once: the probe characters of each family (all: every probe; Unicode / AppleRoman /
 \* Symbol: the probes for which the Font view is judged when the output record has that encoding)
@@ -121,9 +166,24 @@ ProbeJson(X) == [all |-> Asc(X),
                  Unicode    |-> Asc({x \in X : FontViewApplies("Unicode", x)}),
                  AppleRoman |-> Asc({x \in X : FontViewApplies("AppleRoman", x)}),
                  Symbol     |-> Asc({x \in X : FontViewApplies("Symbol", x)})]
-ASSUME PrintT(<<"PROBES", ToJson([XU |-> ProbeJson(XU), XM |-> ProbeJson(XM), XS |-> ProbeJson(XS), sym |-> SYM])>>)
+ASSUME PrintT(<<"PROBES", ToJson([XU |-> ProbeJson(XU), XM |-> ProbeJson(XM), sym |-> SYM] @@
+                                 [n \in {"XS" \o ToString(f) : f \in SymFirsts} |->
+                                    ProbeJson(XSOf(CHOOSE f \in SymFirsts : "XS" \o ToString(f) = n))])>>)
 
-Init == (InitSmall \/ InitSegs \/ InitPad \/ InitHuge \/ InitMac \/ InitSym) /\ done = FALSE
+\* ---- the inverse law of the Symbol -> Mac Roman conversion (CmapSubset!SymInverseLaw) -------------------
+\* over every 16-bit code (a format 4 source holds no other), usFirstCharIndex on both sides of 0x20, of
+\* 0xF000 / 0xF020 / 0xF0FF and at the ends of its range, and as characters: every Mac Roman character,
+\* U+0000..U+02FF, the PUA image, and a few far ones
+LawFirsts == SymFirsts \cup {1, 127, 61471, 61473, 65535}
+LawCodes  == 0 .. 65535
+LawChars  == MacRomanChars \cup (0 .. 767) \cup PuaImage \cup {8364, 65535, 65536, 1114111}
+ASSUME FixSymInv => SymInverseLaw(SymToUni, LawFirsts, LawCodes, LawChars)
+\* the law discriminates: the named wrong readings break it, exactly where the usual values cannot show it
+ASSUME SymInverseLaw(SymToUni_SaturatingOffset, {f \in LawFirsts : f >= 32}, LawCodes, LawChars)
+ASSUME \A f \in {0, 1, 16, 31} : ~SymInverseLaw(SymToUni_SaturatingOffset, {f}, LawCodes, LawChars)
+ASSUME ~SymInverseLaw(SymToUni_PuaFirst, {32}, LawCodes, LawChars)
+
+Init == (InitSmall \/ InitSegs \/ InitPad \/ InitHuge \/ InitZero \/ InitBorder \/ InitMac \/ InitSym) /\ done = FALSE
 Next == done = FALSE /\ done' = TRUE /\ UNCHANGED par
 Spec == Init /\ [][Next]_vars
 
@@ -158,7 +218,7 @@ CaseJson(p) ==
       X   == Asc(ProbesOf(p))
       xe  == NonZero([i \in 1 .. Len(X) |-> <<X[i], CHOOSE v \in Expected(c, X[i]) : TRUE>>])
       xp  == NonZero([i \in 1 .. Len(X) |-> <<X[i], OutMap(rec, X[i])>>])
-  IN [fam |-> p.fam, enc |-> p.enc, first |-> p.first, target |-> p.target, n |-> NumGlyphs(p),
+  IN [fam |-> p.fam, enc |-> p.enc, first |-> p.first, os2 |-> p.os2, target |-> p.target, n |-> NumGlyphs(p),
       pad |-> p.pad, sm |-> c.sm, ids |-> c.ids,
       xs |-> ProbeSetName(p),
       x  |-> xe,                                  \* non-zero expectations; every other probe: 0
@@ -166,7 +226,7 @@ CaseJson(p) ==
       pm |-> IF xe = xp THEN <<>> ELSE xp,        \* otherwise: the model's non-zero predictions
       pred |-> PredOf(rec),
       shape |-> Shape(c),
-      dev |-> Fmt0Overflow(c) \/ SymInvDiverges(c)]
+      dev |-> (~FixFmt0 /\ Fmt0Overflow(c)) \/ (~FixSymInv /\ SymInvDiverges(c))]
 
 EmitCase == done => PrintT(<<"CASE", ToJson(CaseJson(par))>>)
 =============================================================================
